@@ -97,7 +97,8 @@ theorem forward_faithful (e : Entry) (he : e = layerGlyphNameChange ∨ e = laye
 
 /-- will_did_criterion_sound.  For EVERY program of the DSL: if it posts no will-notification, or if it is
 loop-free and of the shape  reads and checks · post Will · statements that neither stop the method nor
-bracket holds · post the matching Did · statements that do not change the store  — then from every store
+bracket holds (a repeated `reject` on an argument already refuted before the will is allowed: it cannot
+fire) · post the matching Did · statements that do not change the store  — then from every store
 and for every argument: every delivered will is delivered while its getter (for its subject) still returns
 what it returned before the operation, and its matching did is delivered later in the same operation at an
 instant at which that getter already returns its final value. -/
@@ -308,9 +309,10 @@ example : ((runOp glyphLeftMargin { args := [.int 10] }
       (fun ev => (ev.name, ev.old, ev.new))) =
     [("Glyph.LeftMarginWillChange", some (.int 0), some (.int 10)), ("Glyph.WidthChanged", some (.int 80), some (.int 90)),
      ("Glyph.LeftMarginDidChange", some (.int 0), some (.int 10))] := by decide
-/-- the regenerated tables: 26 classes; `Lib.ItemSet` is posted by `Lib` through the inherited
-`BaseDictObject.__setitem__` and the class attribute -/
-example : T.classes.length = 26 ∧ "Lib.ItemSet" ∈ T.postedNames "Lib" ∧ "Glyph.Changed" ∈ T.postedNames "Glyph" := by
+/-- the regenerated tables: `Lib.ItemSet` is posted by `Lib` through the inherited
+`BaseDictObject.__setitem__` and the class attribute (no statement here depends on how many classes or
+methods the sources have) -/
+example : "Lib.ItemSet" ∈ T.postedNames "Lib" ∧ "Glyph.Changed" ∈ T.postedNames "Glyph" := by
   decide +kernel
 
 end DefconModel.Props.C08
